@@ -68,7 +68,17 @@ from treadmill.trace.app import zk as tracezk
 
 from oracles import presencecheck
 
-ALL_HOSTS = ('hosta', 'hostb', 'hostc')
+# host-name pools of the swarm: unrelated names, and names in a prefix
+# relation (the node content is '<host>' or '<host>:<port>'; ownership tests
+# by content must be exact)
+HOST_POOLS = (
+    ('hosta', 'hostb', 'hostc'),
+    ('node1', 'node10', 'node2'),
+    ('h.cell.co', 'h.cell.com', 'g.cell.com'),
+    ('node1', 'node10', 'node100'),
+    ('hosta', 'hostb', 'hostc'),
+    ('node10', 'node1', 'node11'),
+)
 TERMINAL = ('finished', 'aborted', 'killed')
 SETTLE_ROUNDS = 8
 NESTABLE = ('svc', 'deliver', 'expire', 'delete', 'create', 'kill', 'restart',
@@ -1079,7 +1089,7 @@ OP_WEIGHTS = [
     ('expire', 4), ('kill', 2), ('restart', 9), ('place', 5), ('publish', 6),
     ('kill_node', 2), ('ep_register', 2), ('ep_exit', 1), ('handover', 3),
     ('restart_same_host', 2), ('ep_crash', 1), ('ep_reap', 1),
-    ('rt_restart_same_host', 2),
+    ('rt_restart_same_host', 2), ('fence_old_host', 3),
 ]
 
 
@@ -1326,6 +1336,35 @@ class Generator:
         self.follow.extend(tail)
         return {'op': 'place', 'inst': old.inst, 'host': new_host}
 
+    def g_fence_old_host(self, world):
+        """An admin fences a host (kill_node) that still holds the placement
+        of an instance whose current container is registered from another
+        host (the old host died / was blacked out, the master has not moved
+        the record yet, or moved it back)."""
+        cands = [c for c in world.conts.values()
+                 if c.present and world._valid(c)]
+        if not cands:
+            return None
+        cur = self.rng.choice(cands)
+        others = [h for h in self.config['hosts'] if h != cur.host]
+        if not others:
+            return None
+        related = [h for h in others
+                   if cur.host.startswith(h) or h.startswith(cur.host)]
+        old = self.rng.choice(related if related and
+                              self.rng.random() < 0.8 else others)
+        tail = []
+        if self.rng.random() < 0.4 and world.hosts[old].sid and \
+                world.zk.sessions[world.hosts[old].sid].alive:
+            tail.append({'op': 'expire', 'host': old})
+        tail.append({'op': 'kill_node', 'host': old})
+        if world.placement.get(cur.inst) == old:
+            first = tail.pop(0)
+            self.follow.extend(tail)
+            return first
+        self.follow.extend(tail)
+        return {'op': 'place', 'inst': cur.inst, 'host': old}
+
     def g_restart_same_host(self, world):
         """The instance restarts on the same host: the new container
         registers before the old one is cleaned up."""
@@ -1351,7 +1390,7 @@ class Generator:
 def make_config(prop, tier, rng):
     big = tier == 'thorough'
     nhosts = rng.choice([2, 2, 2, 3])
-    hosts = list(ALL_HOSTS[:nhosts])
+    hosts = list(rng.choice(HOST_POOLS)[:nhosts])
     ninst = rng.choice([1, 1, 2])
     instances = ['proid1.web#%010d' % (i + 1) for i in range(ninst)]
     group = rng.choice([None, 'g0', 'g0'])
@@ -1419,6 +1458,8 @@ class PresenceSim(enginemod.Engine):
         'DirWatcher objects of dead simulated processes are reused (watch '
         'removed, kernel queue drained) instead of closed',
         'utils.sys_exit raises SimProcessExit (process death)',
+        'host names: a swarm parameter (pools with unrelated names and with '
+        'names in a prefix relation, e.g. node1/node10, h.cell.co/h.cell.com)',
         'the scheduler master: a script that creates/deletes '
         '/placement/<host>/<instance>',
         'events_publisher directory loop: trace.app.zk.publish is called '
